@@ -41,6 +41,8 @@ class M:
             PC.new_cells("pc", formula="lambda: n + k2")
             NP = P.new_space("NP", formula="lambda r: None")         # nested parametric child
             NP.new_cells("both", formula="lambda: n * 100 + r * 10 + g")
+            PS = self.PS = m.new_space("PS", bases=P, formula=SIGS[sig][0])      # derives P's cells and refs; instances of PS inherit them
+            PS.new_cells("own", formula="lambda t: h(t) * 2")
 
     def static(self, n, q, k, g, k2, extra, h_src=None, pc_src=None, hh_src=None):
         """Oracle space: parameters bound as plain references."""
@@ -66,7 +68,7 @@ class M:
 
 
 def _inst(mm, a, spell):
-    P = mm.P
+    P = mm.PS if getattr(mm, "use_derived", False) else mm.P
     two = "q" in SIGS[mm.sig][1]
     if spell == 0:
         return P[a]
@@ -90,11 +92,15 @@ def _values(sp, with_child):
 
 
 @harness
-def itemspace(k: int, g: int, k2: int, v: int, w: int, sig: int, a: int, b: int, s1: int, s2: int, ed: int) -> bool:
-    sig, a, b, s1, s2, ed = pick(sig, 0, 4), pick(a, 0, 1), pick(b, 0, 1), pick(s1, 0, 4), pick(s2, 0, 4), pick(ed, 0, len(EDITS) - 1)
-    label("sig %s" % SIGS[sig][0])
+def itemspace(k: int, g: int, k2: int, v: int, w: int, sig: int, a: int, b: int, s1: int, s2: int, ed: int, derived: bool) -> bool:
+    sig, a, b, s1, s2, ed, derived = pick(sig, 0, 4), pick(a, 0, 1), pick(b, 0, 1), pick(s1, 0, 4), pick(s2, 0, 4), pick(ed, 0, len(EDITS) - 1), pickb(derived)
+    if derived and (sig == 4 or ed in (5, 7)):
+        return True            # (base chosen by the formula / child-space edits: covered with derived=False)
+    label("sig %s%s" % (SIGS[sig][0], " - instances of a space DERIVED from P" if derived else ""))
     mm = M(sig, k, g, k2, "I")
+    mm.use_derived = derived
     m, P = mm.m, mm.P
+    IS = mm.PS if derived else mm.P        # the space whose instances are examined; edits go to P (the definer)
     label("P%s spelled %d and %d" % ((a,), s1, s2))
     i1 = _inst(mm, a, s1)
     i2 = _inst(mm, a, s2)
@@ -105,16 +111,20 @@ def itemspace(k: int, g: int, k2: int, v: int, w: int, sig: int, a: int, b: int,
         return False
     extra = (a * 10 + k) if sig == 3 else 0
     St = mm.static(a, 1, k, g, k2, extra)
-    got, exp = _values(i1, sig != 4), _values(St, sig != 4)
+    got, exp = _values(i1, sig != 4 and not derived), _values(St, sig != 4 and not derived)
     for key in sorted(got):
         if not check(same_outcome(got[key], exp[key]), "instance value %s == base formulas with parameters bound" % key, lambda: (got[key], exp[key])):
             return False
-    if sig != 4:
+    if derived:
+        o = call(i1.cells["own"], 1)
+        if not check(o[0] == "ok" and same_outcome(("ok", o[1]), ("ok", exp["h2"][1] * 0 + (a * 1 + k + g + extra) * 2)), "cells defined in the derived space uses the inherited cells inside the instance", lambda: o):
+            return False
+    if sig != 4 and not derived:
         nested = call(lambda: i1.spaces["NP"][b].cells["both"]())
         if not check(nested[0] == "ok" and nested[1] == a * 100 + b * 10 + g, "nested ItemSpace sees both parameters", lambda: nested):
             return False
     with notrace():
-        keys = set(P.itemspaces)
+        keys = set(IS.itemspaces)
         want = {(0, 1), (1, 1)} if "q" in SIGS[sig][1] else {0, 1}
     if not check(keys == want, "itemspaces lists exactly the created instances", lambda: (keys, want)):
         return False
@@ -154,20 +164,20 @@ def itemspace(k: int, g: int, k2: int, v: int, w: int, sig: int, a: int, b: int,
         P.PC.cells["pc"].formula = "lambda: n + k2 + 9"
         pcsrc = "lambda: n + k2 + 9"
     with notrace():
-        survived = ((a, 1) if "q" in SIGS[sig][1] else a) in P.itemspaces
+        survived = ((a, 1) if "q" in SIGS[sig][1] else a) in IS.itemspaces
     label("instance %s the edit" % ("survived" if survived else "was discarded by"))
     extra2 = (a * 10 + kk) if sig == 3 else (ee if ee is not None and sig != 4 else 0)
     St2 = mm.static(a, 1, kk, gg, k2, extra2, h_src=hsrc, pc_src=pcsrc, hh_src=hhsrc)
-    exp2 = _values(St2, sig != 4)
+    exp2 = _values(St2, sig != 4 and not derived)
     new = _inst(mm, a, s1)
-    got2 = _values(new, sig != 4)
+    got2 = _values(new, sig != 4 and not derived)
     for key in sorted(got2):
         if key == "h2" or key == "h0" or True:
             if not check(same_outcome(got2[key], exp2[key]), "re-created instance value %s reflects the edit" % key, lambda: (got2[key], exp2[key])):
                 return False
     # old handle: either dead or equal to the current definitions
     try:
-        old = _values(i1, sig != 4)
+        old = _values(i1, sig != 4 and not derived)
     except DeletedObjectError:
         label("old handle dead")
         return True
@@ -188,13 +198,15 @@ def itemspace(k: int, g: int, k2: int, v: int, w: int, sig: int, a: int, b: int,
 NS, NE = len(SIGS), len(EDITS)
 QUERIES = [
     Query("itemspace", itemspace, pre=["0 <= sig < %d" % NS, "0 <= a <= 1", "0 <= b <= 1", "0 <= s1 < 5", "0 <= s2 < 5", "0 <= ed < %d" % NE],
-          partitions=lambda tier, seed: ([dict(sig=s, ed=e, s1=0, s2=[1, 4]) for s in range(NS) for e in (0, 1, 3)] +
-                                         [dict(sig=s, ed=[4, NE - 1], s1=0, s2=1, b=0) for s in range(NS)] +
-                                         [dict(sig=s, ed=2, s1=[1, 4], s2=0, b=1) for s in range(NS)]) if tier == "quick" else
+          partitions=lambda tier, seed: ([dict(sig=s, ed=e, s1=0, s2=[1, 4], derived=False) for s in range(NS) for e in (0, 1, 3)] +
+                                         [dict(sig=s, ed=[4, NE - 1], s1=0, s2=1, b=0, derived=False) for s in range(NS)] +
+                                         [dict(sig=s, ed=2, s1=[1, 4], s2=0, b=1, derived=False) for s in range(NS)] +
+                                         [dict(sig=s, ed=[0, NE - 1], s1=0, s2=1, b=0, derived=True) for s in range(NS - 1)]) if tier == "quick" else
           [dict(sig=s, ed=e, s1=s1) for s in range(NS) for e in range(NE) for s1 in range(5)],
-          natives=[dict(k=3, g=4, k2=5, v=77, w=99, sig=s, a=a, b=1, s1=s1, s2=s2, ed=e)
-                   for (s, a, s1, s2, e) in ((0, 1, 0, 1, 1), (1, 0, 3, 4, 3), (2, 0, 4, 0, 2), (3, 1, 2, 0, 1), (4, 1, 1, 2, 4), (0, 0, 0, 2, 5), (1, 1, 1, 2, 6), (3, 0, 0, 1, 7), (2, 1, 1, 1, 0))],
-          bounds=lambda tier: {"signatures": [s[0] for s in SIGS], "spellings": 5, "arguments": "{0,1}", "edits": EDITS, "nesting": "parametric child of a parametric space",
+          natives=[dict(k=3, g=4, k2=5, v=77, w=99, sig=s, a=a, b=1, s1=s1, s2=s2, ed=e, derived=False)
+                   for (s, a, s1, s2, e) in ((0, 1, 0, 1, 1), (1, 0, 3, 4, 3), (2, 0, 4, 0, 2), (3, 1, 2, 0, 1), (4, 1, 1, 2, 4), (0, 0, 0, 2, 5), (1, 1, 1, 2, 6), (3, 0, 0, 1, 7), (2, 1, 1, 1, 0))] +
+                  [dict(k=3, g=4, k2=5, v=77, w=99, sig=s, a=1, b=0, s1=0, s2=1, ed=e, derived=True) for (s, e) in ((0, 3), (1, 1), (2, 6), (3, 4), (0, 2))],
+          bounds=lambda tier: {"signatures": [s[0] for s in SIGS], "spellings": 5, "arguments": "{0,1}", "edits": EDITS, "nesting": "parametric child of a parametric space", "derived": "instances of a parametric space that inherits the cells/refs from P, edits applied to P",
                                "values": "k, g, k2, edit operand, assigned input: unbounded symbolic ints"},
           outside=["more than two parameters", "two edits", "formulas returning 'bases' lists"]),
 ]
